@@ -11,15 +11,24 @@ ASSUME = ("gevent runs run_callback callbacks FIFO and drains them before pollin
           "at most K events become ready in one event-loop iteration; one request line per connection per iteration",
           "3 workers, 2 channels, <= 4 jobs; a disconnected worker does not reconnect")
 
-BASE_OPS = {"add", "pull", "finish", "kill", "tick", "eof"}
-EXT_OPS = BASE_OPS | {"readd", "wait"}
+BASE_OPS = {"add", "pull", "finish", "kill", "tick", "eof", "readd"}   # add(channel, priority, id) may name an existing id
+EXT_OPS = BASE_OPS | {"wait", "wait2"}
+
+
+def narrow_cfg(tier, ops, **kw):
+    """deep exploration of a narrow configuration in which every operation collides by construction:
+    1 channel, 2 workers, <= 2 jobs, one priority"""
+    base = dict(bound=11 if tier == "quick" else 13, maxpoll=2, maxjobs=2, prios=(0,), timeouts=(10.0,), channels=("a",),
+                pullsets=(("a",),), workers=("w1", "w2"), finish_kinds=("ok",), kill_by_holder=False, ops=set(ops), probe=True)
+    base.update(kw)
+    return X.Cfg(**base)
 
 
 def make_cfg(tier, ops, maxrestarts=0):
     if tier == "quick":
         cfg = X.Cfg(bound=8, maxpoll=2, maxjobs=3, prios=(0, 1), timeouts=(10.0,), finish_kinds=("ok", "err"),
                     kill_by_holder=False, ops=set(ops), maxrestarts=min(maxrestarts, 1))
-        cap = 45
+        cap = 90
     else:
         cfg = X.Cfg(bound=8, maxpoll=3, maxjobs=4, prios=(0, 1), timeouts=(10.0, 100.0), ops=set(ops), maxrestarts=maxrestarts)
         cap = 1500
@@ -38,7 +47,10 @@ class C16:
 
     def main(self, tier, seed, gate=True):
         cfg, cap = make_cfg(tier, BASE_OPS)
-        return X.search(self.id, cfg, tier, seed, self.families, time_cap=cap, rule=RULE, assumptions=ASSUME, gate=gate)
+        narrow = narrow_cfg(tier, {"add", "readd", "pull", "kill", "eof", "finish"})
+        return X.search_phases(self.id, [("wide", cfg, cap), ("narrow-deep", narrow, 60 if tier == "quick" else 1500)], tier, seed,
+                               self.families, rule=RULE + "; second phase: the narrow configuration (1 channel, 2 workers, 2 jobs) to a deeper bound",
+                               assumptions=ASSUME, gate=gate)
 
     def replay(self, record):
         return X.replay_history(record, self.families, make_cfg("quick", BASE_OPS)[0])
